@@ -184,7 +184,7 @@ func oracleC01(x *Exec) []Finding {
 		for _, n := range nodes {
 			switch n.Kind {
 			case "element":
-				ln := strings.ToLower(n.Name)
+				ln := asciiLower(n.Name)
 				if !x.Model.Known(ln) && !ImpliedElements[ln] {
 					fs = append(fs, Finding{"C01", "dom:" + ln, fmt.Sprintf("DOM (in <%s>) contains element <%s> the policy does not allow", ctx, n.Name)})
 				}
@@ -221,7 +221,7 @@ func oracleC05(x *Exec) []Finding {
 			continue
 		}
 		for _, n := range nodes {
-			if n.Kind == "element" && unsafeName(strings.ToLower(n.Name)) {
+			if n.Kind == "element" && unsafeName(asciiLower(n.Name)) {
 				fs = append(fs, Finding{"C05", "dom:" + n.Name, fmt.Sprintf("DOM (in <%s>) contains <%s>", ctx, n.Name)})
 			}
 		}
@@ -248,11 +248,32 @@ func oracleC05(x *Exec) []Finding {
 		if len(m) < 3 || strings.Contains(outside, m) {
 			continue // not distinctive
 		}
-		if strings.Contains(outText, m) || strings.Contains(string(x.Output), m) {
+		if strings.Contains(outText, m) {
 			fs = append(fs, Finding{"C05", "body", fmt.Sprintf("script/style body %q appears in the output", m)})
+		} else if strings.Contains(string(x.Output), m) && x.Real != nil {
+			// the body also shows up in the raw output: that is the body having been written only if
+			// the same document without the body does not produce it (a body such as "</p>" may
+			// coincide with markup that legitimately comes from elsewhere in the document)
+			if !strings.Contains(x.Real.Sanitize(string(withoutBody(x.InToks, b))), m) {
+				fs = append(fs, Finding{"C05", "body", fmt.Sprintf("script/style body %q appears in the raw output", m)})
+			}
 		}
 	}
 	return fs
+}
+
+// withoutBody re-serialises the tokens with the script/style body d left out.
+func withoutBody(toks []Tok, d string) []byte {
+	var keep []Tok
+	done := false
+	for i, t := range toks {
+		if !done && t.T == "text" && t.D == d && i > 0 && (toks[i-1].T == "start" || toks[i-1].T == "self") && unsafeName(toks[i-1].N) {
+			done = true
+			continue
+		}
+		keep = append(keep, t)
+	}
+	return Serialise(keep, nil)
 }
 
 // ---------------------------------------------------------------------------
